@@ -8,6 +8,15 @@ Pipeline (spec/Adapter.tla, spec/AdapterTrace.tla, harness/fam_adapter.go):
      random attribute shapes, exotic level values) become scripts;
   4. the Go worker executes them on the real library on recording writers and decodes every record;
   5. TLC validates the recording against AdapterTrace; every rejected line carries a key.
+
+Two parts of the model deserve a word (see the header of Adapter.tla):
+  * EQUAL KEYS.  Attribute shapes are trees flattened to leaves [p, k, v, o] (o = ordinals); the record
+    a handler emits is one tree in logical order (derivation steps, then the record's attributes) and
+    of several attributes with one key in one group instance the LAST is a must, earlier ones may be
+    dropped (native rule) or kept ("all").  The catalogue contains colliding shapes on purpose.
+  * THE LEVEL REGISTRY is process-wide: Register events are part of the behaviours; a behaviour that
+    registers runs in a worker process of its own (the worker forks itself), "Proc" lines tell the
+    monitor where a process starts.
 """
 import json
 import os
@@ -20,38 +29,79 @@ PANIC, FATAL, ERROR, WARN, INFO, DEBUG, TRACE, OFF, ALWAYS = range(9)
 SLOG_LEVELS = [-8, -4, -1, 0, 2, 4, 8, 12, 16, 17]
 A, NL = 97, 10
 
-WITNESSES = [("DerivedFresh", "KeepsConfig"), ("BridgeInverted", "BridgeGate"), ("EntryLogUnknownFatal", "NoTerminating")]
+NO_TREAT = 12
+WITNESSES = [("DerivedFresh", "KeepsConfig"), ("BridgeInverted", "BridgeGate"), ("EntryLogUnknownFatal", "NoTerminating"),
+             ("AttrsBehindRecord", "RecordWins"), ("RegRemapsStd", "StdIndependent"), ("RegErrDevOfTreated", "RegistryLocal")]
 
 
 # ------------------------------------------------------------------ catalogues
 
-def leaf(path, kind, v):
-    return dict(p=list(path), k=kind, v=v)
+def L(key, kind, v):
+    """a leaf attribute"""
+    return (key, kind, v)
+
+
+def G(key, *kids):
+    """a group attribute (one INSTANCE: two G("g", ..) in one list are two attributes with one key)"""
+    return (key, list(kids))
+
+
+def flatten(tree, path=(), ords=()):
+    """Tree -> leaves [p, k, v, o]: p keys from the outermost group to the leaf, o the 1-based positions
+    of the same nodes in the lists they were given in."""
+    out = []
+    for i, node in enumerate(tree, 1):
+        if len(node) == 3:
+            out.append(dict(p=list(path) + [node[0]], k=node[1], v=node[2], o=list(ords) + [i]))
+        else:
+            out += flatten(node[1], tuple(path) + (node[0],), tuple(ords) + (i,))
+    return out
+
+
+def shape(tree, valuers=()):
+    return dict(leaves=flatten(tree), valuers=list(valuers), tree=tree)
 
 
 def base_shapes():
     """Hand-written attribute shapes: every log/slog kind, nesting to depth 3, LogValuers (scalar,
     chained, group-valued), a wide record.  Groups sort last on every level, where the library's
-    logfmt/colored encoders print full dotted keys (an encoder, not an adapter, limitation)."""
+    logfmt/colored encoders print full dotted keys (an encoder, not an adapter, limitation).
+    The last three record shapes and the last derivation shape exist for their EQUAL KEYS: with the
+    derivation shapes (top level, inside zd, inside a WithGroup("G") group), with the group name G
+    itself, and within one list (two leaves u, two groups zd)."""
     rec = [
-        dict(leaves=[], valuers=[]),
-        dict(leaves=[leaf(["a"], "bool", 1), leaf(["b"], "int", 1), leaf(["c"], "big", 1), leaf(["d"], "uint", 1),
-                     leaf(["e"], "float", 1), leaf(["f"], "str", 1), leaf(["g"], "dur", 1), leaf(["h"], "time", 1),
-                     leaf(["i"], "any", 1), leaf(["j"], "err", 1), leaf(["k"], "valuer", 1), leaf(["l"], "valuer", 2)],
-             valuers=[]),
-        dict(leaves=[leaf(["x"], "int", 2), leaf(["zg", "a"], "str", 2), leaf(["zg", "zh", "b"], "big", 2),
-                     leaf(["zg", "zh", "zi", "c"], "bool", 0), leaf(["zg", "zh", "zi", "d"], "float", 2)], valuers=[]),
-        dict(leaves=[leaf(["y"], "uint", 2), leaf(["zv", "n"], "int", 3), leaf(["zv", "s"], "str", 3),
-                     leaf(["zw", "zq", "u"], "dur", 2)], valuers=["zv", "zw.zq"]),
-        dict(leaves=[leaf(["k%02d" % i], ["int", "str", "float", "big", "uint"][i % 5], 10 + i) for i in range(14)],
-             valuers=[]),
-        dict(leaves=[leaf(["ga", "x"], "int", 4), leaf(["m"], "str", 4), leaf(["n"], "time", 2)], valuers=[]),
+        shape([]),
+        shape([L("a", "bool", 1), L("b", "int", 1), L("c", "big", 1), L("d", "uint", 1), L("e", "float", 1), L("f", "str", 1),
+               L("g", "dur", 1), L("h", "time", 1), L("i", "any", 1), L("j", "err", 1), L("k", "valuer", 1), L("l", "valuer", 2)]),
+        shape([L("x", "int", 2), G("zg", L("a", "str", 2), G("zh", L("b", "big", 2), G("zi", L("c", "bool", 0), L("d", "float", 2))))]),
+        shape([L("y", "uint", 2), G("zv", L("n", "int", 3), L("s", "str", 3)), G("zw", G("zq", L("u", "dur", 2)))], ["zv", "zw.zq"]),
+        shape([L("k%02d" % i, ["int", "str", "float", "big", "uint"][i % 5], 10 + i) for i in range(14)]),
+        shape([G("ga", L("x", "int", 4)), L("m", "str", 4), L("n", "time", 2)]),
+        shape([L("da", "float", 60), L("dq", "int", 61), G("zd", L("dx", "str", 62), L("dz", "int", 63)), L("da", "big", 64)]),
+        shape([G("G", L("da", "int", 65), L("u", "str", 68)), L("db", "dur", 66), L("dd", "str", 67)]),
+        shape([L("u", "int", 69), L("u", "str", 70), G("zd", L("dx", "float", 71)), G("zd", L("dy", "int", 72))]),
     ]
     deriv = [
-        dict(leaves=[leaf(["da"], "int", 50), leaf(["db"], "str", 50)], valuers=[]),
-        dict(leaves=[leaf(["zd", "dx"], "float", 51), leaf(["dc"], "valuer", 51)], valuers=[]),
+        shape([L("da", "int", 50), L("db", "str", 50)]),
+        shape([G("zd", L("dx", "float", 51)), L("dc", "valuer", 51)]),
+        shape([L("da", "str", 52), G("G", L("da", "int", 53)), L("dd", "int", 54), L("dd", "uint", 55)]),
     ]
     return rec, deriv
+
+
+def reg_cells(quick):
+    """RegisterLevel calls offered: value, title, treated-as (NO_TREAT = option not given), error device,
+    short tags.  Titles differ in their first three characters (the colored format prints 3)."""
+    cells = [(41, WARN, False, False), (42, ERROR, True, True), (12, INFO, True, False), (1000, NO_TREAT, False, True)]
+    if not quick:
+        cells += [(43, DEBUG, False, False), (44, TRACE, True, True), (45, INFO, False, False), (100, ERROR, False, False)]
+    out = []
+    for i, (val, treat, err, tags) in enumerate(cells):
+        a = "ABCDEFGHIJ"[i]
+        t = "y%sq" % a.lower()
+        out.append(dict(val=val, title="X%sZ%d" % (a, val), treat=treat, err=err,
+                        tags=["", t[:1], t[:2], t, t + "r", t + "rs"] if tags else []))
+    return out
 
 
 def all_opts():
@@ -78,7 +128,8 @@ def catalogue(ctx):
     quick = ctx.quick()
     cat = dict(seed=ctx.seed, pkg_level=[WARN, INFO, ERROR][ctx.seed % 3], rec_shapes=rec, deriv_shapes=deriv,
                hmsgs=[[A, 98], [A, NL, 98, 99], [A, 32, 98, NL]],
-               bmsgs=[[], [NL], [A], [A, NL], [A, NL, NL], [A, NL, 98], [NL, A]] if quick else bmsgs_upto(3) + [[A, 98, NL, NL, NL]])
+               bmsgs=[[], [NL], [A], [A, NL], [A, NL, NL], [A, NL, 98], [NL, A]] if quick else bmsgs_upto(3) + [[A, 98, NL, NL, NL]],
+               regcells=reg_cells(quick))
     if quick:
         o = lambda nc, ns, js, lvl: dict(nocolor=nc, nosource=ns, json=js, level=lvl)
         cat["opts"] = [o(True, True, False, 0), o(False, False, False, 0), o(True, False, True, 0),
@@ -118,6 +169,8 @@ def mc_configs(ctx, cat):
         bridges = [dict(L=L, sev=s, f=["json", "logfmt", "color"][(L + s) % 3]) for L in range(9) for s in range(12)]
         cfgs["mc"] = dict(Roots=roots, MaxHandlers=3, DeriveFromAny=False, ProbeAll=False,
                           HandleCells=handle_cells(n_sh, False), BridgeCfgs=bridges, GroupNames={"G"})
+        cfgs["reg"] = reg_config(cat, [dict(L=TRACE, oi=1), dict(L=WARN, oi=3), dict(L=INFO, oi=2)],
+                                 [TRACE, WARN, ERROR, ALWAYS], 2)
     else:
         roots = [dict(L=L, oi=oi) for L in range(9) for oi in range(1, n_opts + 1)]
         bridges = [dict(L=L, sev=s, f=f) for L in range(9) for s in range(12) for f in ("json", "logfmt", "color")]
@@ -125,8 +178,29 @@ def mc_configs(ctx, cat):
                             HandleCells=handle_cells(n_sh, True), BridgeCfgs=bridges, GroupNames={"G", "H"})
         deep_roots = [dict(L=L, oi=oi) for (L, oi) in [(TRACE, 2), (INFO, 4), (DEBUG, 7), (WARN, 12), (ALWAYS, 21), (ERROR, 30), (OFF, 3), (TRACE, 40)]]
         cfgs["deep"] = dict(Roots=deep_roots, MaxHandlers=4, DeriveFromAny=True, ProbeAll=True,
-                            HandleCells=handle_cells(n_sh, False), BridgeCfgs=[], GroupNames={"G", "H"})
+                            HandleCells=handle_cells(n_sh, False), BridgeCfgs=[], GroupNames={"G"})
+        cfgs["reg"] = reg_config(cat, [dict(L=TRACE, oi=2), dict(L=WARN, oi=4), dict(L=INFO, oi=7), dict(L=DEBUG, oi=12),
+                                       dict(L=ERROR, oi=21), dict(L=ALWAYS, oi=30)],
+                                 [TRACE, DEBUG, INFO, WARN, ERROR, OFF, ALWAYS], 2)
     return cfgs
+
+
+def reg_config(cat, roots, bridge_levels, max_regs):
+    """The registry part of the cell space: every set of <= max_regs registrations (in every order)
+    x {nothing yet, a handler set-up with <= 1 derivation, a bridge at a built-in or registered
+    severity} x probes at the four standard levels (both ways to make a record, colliding and plain
+    shapes), two other levels, Enabled, Entry.Log and bridge writes.  Register edges leave EVERY state:
+    before the handler/bridge exists and after."""
+    n_sh = len(cat["rec_shapes"])
+    cells = []
+    for i, v in enumerate([-4, 0, 4, 8]):
+        cells.append(dict(v=v, sh=[2, 7, 3, 8][i], via="rec", t=20 + i, mi=1 + i % 3))
+        cells.append(dict(v=v, sh=[7, 1, 9, 6][i] if n_sh >= 9 else 1, via="logger", t=0, mi=1 + (i + 1) % 3))
+    cells += [dict(v=12, sh=2, via="logger", t=0, mi=1), dict(v=-8, sh=3, via="rec", t=25, mi=2)]
+    sevs = [INFO, WARN, DEBUG, 9] + [c["val"] for c in cat["regcells"]]
+    bridges = [dict(L=L, sev=sv, f=["json", "logfmt", "color"][(i + j) % 3]) for i, L in enumerate(bridge_levels) for j, sv in enumerate(sevs)]
+    return dict(Roots=roots, MaxHandlers=2, DeriveFromAny=False, ProbeAll=False, HandleCells=cells, BridgeCfgs=bridges,
+                GroupNames={"G"}, RegCells=cat["regcells"], MaxRegs=max_regs)
 
 
 def tlc_consts(cat, c, trace=False):
@@ -135,14 +209,17 @@ def tlc_consts(cat, c, trace=False):
         RecShapes=[s["leaves"] for s in cat["rec_shapes"]], DerivShapes=[s["leaves"] for s in cat["deriv_shapes"]],
         GroupNames=set(c.get("GroupNames", {"G"})), HandleCells=c.get("HandleCells", []), HMsgs=cat["hmsgs"],
         BridgeCfgs=c.get("BridgeCfgs", []), BMsgs=cat["bmsgs"], Deviations=set(c.get("Deviations", [])),
+        RegCells=[dict(val=r["val"], treat=r["treat"], err=r["err"]) for r in c.get("RegCells", [])],
     )
-    plain = dict(MaxHandlers=c.get("MaxHandlers", 64), DeriveFromAny="TRUE" if c.get("DeriveFromAny", True) else "FALSE",
+    plain = dict(MaxHandlers=c.get("MaxHandlers", 64), MaxRegs=c.get("MaxRegs", 64 if trace else 0),
+                 DeriveFromAny="TRUE" if c.get("DeriveFromAny", True) else "FALSE",
                  ProbeAll="TRUE" if c.get("ProbeAll", True) else "FALSE", PkgLevel=cat["pkg_level"])
     return k, plain
 
 
-INVARIANTS = ["TypeOK", "KeepsConfig", "AddsGiven", "RecordComplete", "StdNamesake", "EnabledAgrees", "NoTerminating",
-              "BridgeGate", "BridgeMsgInv"]
+INVARIANTS = ["TypeOK", "KeepsConfig", "AddsGiven", "RecordComplete", "RecordWins", "StdNamesake", "RegistryLocal",
+              "StdIndependent", "EnabledAgrees", "NoTerminating", "BridgeGate", "BridgeMsgInv"]
+PROPERTIES = ["RegistrationLocal"]
 
 
 # ------------------------------------------------------------------ TLC: exhaustive + witnesses
@@ -194,6 +271,8 @@ def label_to_event(label, c):
         return dict(op="Bridge", mi=a[0], direct=True)
     if name == "BridgePrint":
         return dict(op="Bridge", mi=a[0], direct=False)
+    if name == "Register":
+        return dict(op="Register", **c["RegCells"][a[0] - 1])
     raise Undecided("unknown action label %r" % label)
 
 
@@ -233,7 +312,7 @@ def tree_cover(edges, inits, evs):
 def run_mc(ctx, cat, name, c):
     k, plain = tlc_consts(cat, c)
     mc, cfg = gen_mc("MC", "Adapter", k, ["INIT Init", "NEXT Next", "ALIAS DumpAlias", "CHECK_DEADLOCK FALSE",
-                                          "INVARIANTS " + " ".join(INVARIANTS)], plain=plain)
+                                          "INVARIANTS " + " ".join(INVARIANTS), "PROPERTIES " + " ".join(PROPERTIES)], plain=plain)
     dot = os.path.join(ctx.scratch, "graph-" + name)
     ctx.model_check("MC", "MC.cfg", files={"MC.tla": mc, "MC.cfg": cfg}, extra=["-dump", "dot,actionlabels", dot],
                     name="adapter-" + name, timeout=1500)
@@ -245,7 +324,8 @@ def run_mc(ctx, cat, name, c):
     per_action = {}
     for e in evs:
         per_action[e["op"]] = per_action.get(e["op"], 0) + 1
-    need = {"NewHandler", "WithAttrs", "WithGroup", "Enabled", "Handle", "EntryLog"} | ({"NewBridge", "Bridge"} if c["BridgeCfgs"] else set())
+    need = {"NewHandler", "WithAttrs", "WithGroup", "Enabled", "Handle", "EntryLog"} | ({"NewBridge", "Bridge"} if c["BridgeCfgs"] else set()) \
+        | ({"Register"} if c.get("RegCells") else set())
     if need - set(per_action):
         raise Undecided("vacuous exploration: no edge for %s" % sorted(need - set(per_action)))
     behs = tree_cover(edges, inits, evs)
@@ -258,7 +338,8 @@ def run_witnesses(ctx, cat):
     deviation really contradicts the property."""
     c = dict(Roots=[dict(L=TRACE, oi=1), dict(L=ERROR, oi=2)], MaxHandlers=2, DeriveFromAny=False, ProbeAll=False,
              HandleCells=handle_cells(len(cat["rec_shapes"]), False)[:3], GroupNames={"G"},
-             BridgeCfgs=[dict(L=TRACE, sev=INFO, f="json"), dict(L=ERROR, sev=INFO, f="json")])
+             BridgeCfgs=[dict(L=TRACE, sev=INFO, f="json"), dict(L=ERROR, sev=INFO, f="json")],
+             RegCells=cat["regcells"][:3], MaxRegs=1)
     res = {}
     for dev, inv in WITNESSES:
         k, plain = tlc_consts(cat, dict(c, Deviations=[dev]))
@@ -275,27 +356,56 @@ def run_witnesses(ctx, cat):
 KINDS = ["bool", "int", "big", "uint", "float", "str", "dur", "time", "any", "err", "valuer"]
 
 
-def random_shape(rng, next_id, prefix, groups_last=True):
-    """A random attribute tree (flattened), depth <= 3, unique keys, unique (kind, id) values."""
-    leaves, valuers = [], []
+def random_tree(rng, next_id, prefix, groups_last=True):
+    """A random attribute tree, depth <= 3, unique keys, unique (kind, id) values."""
+    valuers = []
+
+    def rleaf(key):
+        kind = rng.choice(KINDS)
+        return L(key, kind, rng.randint(0, 1) if kind == "bool" else next_id())
 
     def level(path, depth, budget):
-        n_plain = rng.randint(0 if depth else 1, 3)
-        for i in range(n_plain):
-            kind = rng.choice(KINDS)
-            v = rng.randint(0, 1) if kind == "bool" else next_id()
-            leaves.append(leaf(path + ["%s%d%s" % (prefix, depth, "abcdef"[i])], kind, v))
+        nodes = [rleaf("%s%d%s" % (prefix, depth, "abcdef"[i])) for i in range(rng.randint(0 if depth else 1, 3))]
         if depth < 3 and budget > 0:
             for j in range(rng.randint(0, 2)):
                 key = ("z" if groups_last else "A") + "%s%d%s" % (prefix, depth, "pqr"[j])
-                before = len(leaves)
-                level(path + [key], depth + 1, budget - 1)
-                if len(leaves) == before:      # no empty groups (log/slog omits them)
-                    leaves.append(leaf(path + [key, "%se" % prefix], "int", next_id()))
+                kids = level(path + [key], depth + 1, budget - 1)
+                if not kids:                   # no empty groups (log/slog omits them)
+                    kids = [L("%se" % prefix, "int", next_id())]
+                nodes.append(G(key, *kids))
                 if rng.random() < 0.3:
                     valuers.append(".".join(path + [key]))
-    level([], 0, 2)
-    return dict(leaves=leaves, valuers=valuers)
+        return nodes
+    return level([], 0, 2), valuers
+
+
+def collider(rng, next_id, tree, prefix, group_names):
+    """A tree whose keys collide with `tree` (another shape) level by level - same key, new kind and
+    value; a group may be met by a group or by a leaf - plus keys equal to WithGroup names, a key of
+    its own, and now and then one of its own keys twice."""
+    def level(nodes, depth):
+        out = []
+        for node in nodes:
+            if rng.random() < 0.35:
+                continue
+            kind = rng.choice(KINDS)
+            if len(node) == 3 or rng.random() < 0.2:
+                out.append(L(node[0], kind, rng.randint(0, 1) if kind == "bool" else next_id()))
+            else:
+                kids = level(node[1], depth + 1) or [L("%se%d" % (prefix, depth), "int", next_id())]
+                out.append(G(node[0], *kids))
+        out.append(L("%so%d" % (prefix, depth), "str", next_id()))
+        if out and rng.random() < 0.4:           # an equal key inside this very list (a later instance)
+            twin = rng.choice(out)
+            out.append(L(twin[0], "int", next_id()) if len(twin) == 3 or rng.random() < 0.5
+                       else G(twin[0], L("%st%d" % (prefix, depth), "uint", next_id())))
+        return out
+    res = level(tree, 0)
+    if rng.random() < 0.5:                       # the name of a WithGroup group, as a leaf or as a group
+        g = rng.choice(group_names)
+        inner = [L(n[0], "int", next_id()) for n in tree if len(n) == 3][:2] or [L("%sg" % prefix, "int", next_id())]
+        res.insert(rng.randint(0, len(res)), L(g, "str", next_id()) if rng.random() < 0.4 else G(g, *inner))
+    return res
 
 
 def random_part(ctx, cat, count, depth):
@@ -306,63 +416,101 @@ def random_part(ctx, cat, count, depth):
     def next_id():
         ids[0] += 1
         return ids[0]
-    n_rec0, n_der0 = len(cat["rec_shapes"]), len(cat["deriv_shapes"])
-    for i in range(8 if ctx.quick() else 30):
-        cat["rec_shapes"].append(random_shape(rng, next_id, "r%d" % i, groups_last=(i % 4 != 3)))
-    for i in range(4 if ctx.quick() else 12):
-        cat["deriv_shapes"].append(random_shape(rng, next_id, "w%d" % i))
     groups = ["G", "H", "K", "zz"]
+    for i in range(8 if ctx.quick() else 30):
+        cat["rec_shapes"].append(shape(*random_tree(rng, next_id, "r%d" % i, groups_last=(i % 4 != 3))))
+    for i in range(4 if ctx.quick() else 12):
+        cat["deriv_shapes"].append(shape(*random_tree(rng, next_id, "w%d" % i)))
+    # colliders: per derivation shape two record shapes and one derivation shape with its keys
+    n_der = len(cat["deriv_shapes"])
+    rec_vs, der_vs = {}, {}                    # derivation shape index (1-based) -> colliding shape indices
+    for a in range(1, n_der + 1):
+        t = cat["deriv_shapes"][a - 1]["tree"]
+        for j in range(2):
+            cat["rec_shapes"].append(shape(collider(rng, next_id, t, "c%d%s" % (a, "xy"[j]), groups)))
+            rec_vs.setdefault(a, []).append(len(cat["rec_shapes"]))
+        cat["deriv_shapes"].append(shape(collider(rng, next_id, t, "v%d" % a, groups)))
+        der_vs.setdefault(a, []).append(len(cat["deriv_shapes"]))
+        der_vs.setdefault(len(cat["deriv_shapes"]), []).append(a)
+        rec_vs.setdefault(len(cat["deriv_shapes"]), []).extend(rec_vs[a])
+    ctx.extra["catalogue"] = dict(rec_shapes=len(cat["rec_shapes"]), deriv_shapes=len(cat["deriv_shapes"]), regcells=len(cat["regcells"]))
     exotic = SLOG_LEVELS + [-16, -12, -5, -3, 1, 3, 5, 7, 9, 15, 18, 100, -100, 2147483647, -2147483648]
     behs = []
-    def derive(h):
-        if rng.random() < 0.5:
-            return dict(op="WithAttrs", h=h, a=rng.randint(1, len(cat["deriv_shapes"])))
-        return dict(op="WithGroup", h=h, g=rng.choice(groups))
 
-    def handle(h):
+    class Chain:                               # what the random behaviour has derived so far
+        def __init__(self):
+            self.used = {1: []}                # handler -> derivation shapes on its path
+
+        def derive(self, h, new):
+            used = self.used[h]
+            if rng.random() < 0.55:
+                pool = [x for a in used for x in der_vs.get(a, [])]
+                a = rng.choice(pool) if pool and rng.random() < 0.5 else rng.randint(1, len(cat["deriv_shapes"]))
+                self.used[new] = used + [a]
+                return dict(op="WithAttrs", h=h, a=a)
+            self.used[new] = used
+            return dict(op="WithGroup", h=h, g=rng.choice(groups))
+
+        def shape_for(self, h):
+            pool = [x for a in self.used[h] for x in rec_vs.get(a, [])]
+            if pool and rng.random() < 0.5:
+                return rng.choice(pool)
+            return rng.randint(1, len(cat["rec_shapes"]))
+
+    def handle(ch, h, levels):
         via = rng.choice(["logger", "rec"])
-        return dict(op="Handle", h=h, v=rng.choice([-4, 0, 4, 8]), sh=rng.randint(1, len(cat["rec_shapes"])), via=via,
+        return dict(op="Handle", h=h, v=rng.choice(levels), sh=ch.shape_for(h), via=via,
                     t=0 if via == "logger" else rng.randint(1, 40), mi=rng.randint(1, len(cat["hmsgs"])))
+
+    def with_registrations(beh, p):
+        """Interleaves 1..3 RegisterLevel calls (distinct cells) at random places, also in front of the set-up."""
+        if rng.random() >= p:
+            return beh
+        cells = rng.sample(cat["regcells"], rng.randint(1, min(3, len(cat["regcells"]))))
+        for c in cells:
+            beh.insert(rng.randint(0, len(beh)), dict(op="Register", **c))
+        return beh
     # siblings: a chain of k derivations, then several handlers derived from the same parent, all
     # probed afterwards (an implementation that shares storage between siblings shows here)
     for b in range(count // 3):
+        ch = Chain()
         beh = [dict(op="NewHandler", L=rng.choice([TRACE, ALWAYS, DEBUG]), oi=rng.randint(1, len(cat["opts"])))]
         k = rng.randint(0, 5)
         for x in range(k):
-            beh.append(derive(x + 1))
+            beh.append(ch.derive(x + 1, x + 2))
         parent = k + 1
         sibs = rng.randint(2, 3)
         for x in range(sibs):
-            beh.append(derive(parent))
+            beh.append(ch.derive(parent, parent + 1 + x))
         for h in range(1, parent + sibs + 1):
-            beh.append(handle(h))
+            beh.append(handle(ch, h, [-4, 0, 4, 8]))
             beh.append(dict(op="Enabled", h=h, v=rng.choice([-4, 0, 4, 8])))
-        behs.append(beh)
+        behs.append(with_registrations(beh, 0.25))
     for b in range(count):
+        ch = Chain()
         beh = [dict(op="NewHandler", L=rng.randint(0, 8), oi=rng.randint(1, len(cat["opts"])))]
         n = 1
         for _ in range(depth):
             x = rng.random()
             if x < 0.2 and n < 7:
-                h = rng.randint(1, n)
-                if rng.random() < 0.5:
-                    beh.append(dict(op="WithAttrs", h=h, a=rng.randint(1, len(cat["deriv_shapes"]))))
-                else:
-                    beh.append(dict(op="WithGroup", h=h, g=rng.choice(groups)))
+                beh.append(ch.derive(rng.randint(1, n), n + 1))
                 n += 1
             elif x < 0.35:
                 beh.append(dict(op="Enabled", h=rng.randint(1, n), v=rng.choice(exotic)))
             elif x < 0.45:
                 beh.append(dict(op="EntryLog", v=rng.choice(exotic), mi=rng.randint(1, len(cat["hmsgs"]))))
             else:
-                via = rng.choice(["logger", "rec"])
-                beh.append(dict(op="Handle", h=rng.randint(1, n), v=rng.choice(exotic if rng.random() < 0.5 else [-4, 0, 4, 8]),
-                                sh=rng.randint(1, len(cat["rec_shapes"])), via=via,
-                                t=0 if via == "logger" else rng.randint(1, 40), mi=rng.randint(1, len(cat["hmsgs"]))))
-        behs.append(beh)
+                beh.append(handle(ch, rng.randint(1, n), exotic if rng.random() < 0.5 else [-4, 0, 4, 8]))
+        behs.append(with_registrations(beh, 0.3))
     for b in range(count // 3):
-        beh = [dict(op="NewBridge", L=rng.randint(0, 8), sev=rng.randint(0, 11), f=rng.choice(["json", "logfmt", "color"]))]
+        regs = rng.sample(cat["regcells"], rng.randint(0, 2)) if rng.random() < 0.5 else []
+        sevs = list(range(12)) + [c["val"] for c in regs] * 4
+        beh = [dict(op="Register", **c) for c in regs]
+        beh.append(dict(op="NewBridge", L=rng.randint(0, 8), sev=rng.choice(sevs), f=rng.choice(["json", "logfmt", "color"])))
+        late = [c for c in cat["regcells"] if c not in regs]
         for _ in range(depth // 2):
+            if late and regs and rng.random() < 0.05:
+                beh.append(dict(op="Register", **late.pop()))
             beh.append(dict(op="Bridge", mi=rng.randint(1, len(cat["bmsgs"])), direct=rng.random() < 0.5))
         behs.append(beh)
     return behs
@@ -372,15 +520,17 @@ def random_part(ctx, cat, count, depth):
 
 def execute(ctx, cat, behaviours, tag):
     script = dict(cat, behaviours=behaviours)
+    for key in ("rec_shapes", "deriv_shapes"):
+        script[key] = [dict(leaves=sh["leaves"], valuers=sh["valuers"]) for sh in script[key]]
     sp = os.path.join(ctx.scratch, "script-%s.json" % tag)
     with open(sp, "w") as fh:
         json.dump(script, fh)
     tp = os.path.join(ctx.scratch, "trace-%s.ndjson" % tag)
     ctx.run_worker(["adapter", sp, tp], testing=True, timeout=3000)
     rows = read_ndjson(tp)
-    k, plain = tlc_consts(cat, dict(MaxHandlers=64))
+    k, plain = tlc_consts(cat, dict(MaxHandlers=64), trace=True)
     k["TraceFile"] = "trace.ndjson"
-    mct, cfg = gen_mc("MCT", "AdapterTrace", k, ["SPECIFICATION TSpec", "INVARIANTS Done TTypeOK TKeepsConfig TAddsGiven",
+    mct, cfg = gen_mc("MCT", "AdapterTrace", k, ["SPECIFICATION TSpec", "INVARIANTS Done TTypeOK TKeepsConfig TAddsGiven TStdIndependent TRegistryLocal",
                                                  "CHECK_DEADLOCK FALSE"], plain=plain)
     r = ctx.tlc("MCT", "MCT.cfg", files={"MCT.tla": mct, "MCT.cfg": cfg}, copy={tp: "trace.ndjson"}, workers=1,
                 name="adapter-trace-" + tag, timeout=3000, heap="4g", allow_fail=True)
@@ -394,6 +544,41 @@ def execute(ctx, cat, behaviours, tag):
         raise Undecided("trace validation did not reach the end of the log (%d lines, end=%s, %d rejected):\n%s" % (
             len(rows), end, len(bad), r.out[-3000:]))
     return script, rows, sorted(bad, key=lambda b: b["line"])
+
+
+KSTRIDE = 1000
+
+
+def equal_key_classes(cat, chain, sh, memo):
+    """Which kinds of equal keys the record tree of (derivation chain, record shape) contains: "hr" a
+    handler attribute and a record attribute, "hh" two handler attributes, "rr" two attributes of the
+    record - same key in the same group instance (mirrors Adapter!Contested; evidence only, no verdict)."""
+    key = (chain, sh)
+    if key in memo:
+        return memo[key]
+    leaves, pre, preo = [], [], []
+
+    def add(step, shape_leaves, src):
+        for lf in shape_leaves:
+            leaves.append((tuple(pre + lf["p"]), tuple(preo + [step * KSTRIDE + lf["o"][0]] + lf["o"][1:]), src))
+    for i, (op, x) in enumerate(chain, 1):
+        if op == "a":
+            add(i, cat["deriv_shapes"][x - 1]["leaves"], "h")
+        else:
+            pre.append(x)
+            preo.append(i * KSTRIDE)
+    add(len(chain) + 1, cat["rec_shapes"][sh - 1]["leaves"], "r")
+    res = set()
+    for i, (p1, o1, s1) in enumerate(leaves):
+        for (p2, o2, s2) in leaves[i + 1:]:
+            for d in range(1, min(len(p1), len(p2)) + 1):
+                if p1[:d] != p2[:d] or o1[:d - 1] != o2[:d - 1]:
+                    break
+                if o1[d - 1] != o2[d - 1]:
+                    res.add("".join(sorted(s1 + s2)))
+                    break
+    memo[key] = res
+    return res
 
 
 def describe(cat, ev):
@@ -412,15 +597,30 @@ def account(ctx, cat, script, rows, bad, sources):
     if len(starts) != len(behaviours):
         raise Undecided("worker recorded %d behaviours, script has %d" % (len(starts), len(behaviours)))
     ctx.traces += len(starts)
-    ctx.evaluations += len(rows) - len(starts)
+    ctx.evaluations += sum(1 for r in rows if r["op"] not in ("Reset", "Proc"))
+    ctx.extra["processes"] = ctx.extra.get("processes", 0) + sum(1 for bh in behaviours if any(e["op"] == "Register" for e in bh)) + 1
     seen = set()
+    memo = ctx.extra.setdefault("_ek_memo", {})
+    ek = ctx.extra.setdefault("equal_key_records", dict(hr=0, hh=0, rr=0, cells=set()))
     for bi, s in enumerate(starts):
         hist = []
+        chains = [None, ()]
         end = starts[bi + 1] if bi + 1 < len(starts) else len(rows)
-        for r in rows[s + 1:end]:
-            if r["op"] in ("NewHandler", "NewBridge", "WithAttrs", "WithGroup"):
-                hist.append(json.dumps({k: v for k, v in r.items() if k in ("op", "L", "oi", "sev", "f", "h", "a", "g")}, sort_keys=True))
-            elif r["op"] == "Enabled" or (r.get("recs")):
+        body = [r for r in rows[s + 1:end] if r["op"] != "Proc"]
+        if len(body) != len(behaviours[bi]) or any(r["op"] != e["op"] for r, e in zip(body, behaviours[bi])):
+            raise Undecided("recording of behaviour %d does not match its script (%d lines for %d calls)" % (bi, len(body), len(behaviours[bi])))
+        for r in body:
+            if r["op"] in ("NewHandler", "NewBridge", "WithAttrs", "WithGroup", "Register"):
+                hist.append(json.dumps({k: v for k, v in r.items() if k in ("op", "L", "oi", "sev", "f", "h", "a", "g", "val")}, sort_keys=True))
+                if r["op"] == "WithAttrs":
+                    chains.append(chains[r["h"]] + (("a", r["a"]),))
+                elif r["op"] == "WithGroup":
+                    chains.append(chains[r["h"]] + (("g", r["g"]),))
+            if r["op"] == "Handle" and r.get("recs"):
+                for cls in equal_key_classes(cat, chains[r["h"]], r["sh"], memo):
+                    ek[cls] += 1
+                    ek["cells"].add((chains[r["h"]], r["sh"], cls))
+            if r["op"] == "Enabled" or (r["op"] in ("Handle", "EntryLog", "Bridge") and r.get("recs")):
                 seen.add((tuple(hist), json.dumps({k: v for k, v in r.items() if k in ("op", "h", "v", "sh", "via", "mi", "direct")}, sort_keys=True)))
     ctx.extra.setdefault("nontrivial_keys", set()).update(seen)
     import bisect
@@ -433,10 +633,10 @@ def account(ctx, cat, script, rows, bad, sources):
             continue          # enough reproducers of this class; all are counted below
         upto = line - starts[bi]
         ev = rows[line]
+        # a replay needs the registrations, set-up and derivations before the failing call, not the other probes
+        prefix = [e for e in behaviours[bi][:upto - 1] if e["op"] in ("NewHandler", "NewBridge", "WithAttrs", "WithGroup", "Register")]
         what = "after %s, %s: model verdict %s; call and observation: %s" % (
-            json.dumps(behaviours[bi][:upto - 1])[:500] if upto > 1 else "nothing", ev["op"], b["key"], describe(cat, ev))
-        # a replay needs the set-up and derivations before the failing call, not the other probes
-        prefix = [e for e in behaviours[bi][:upto - 1] if e["op"] in ("NewHandler", "NewBridge", "WithAttrs", "WithGroup")]
+            json.dumps([{k: v for k, v in e.items() if k != "tags"} for e in prefix])[:700] if prefix else "nothing", ev["op"], b["key"], describe(cat, ev))
         ctx.finding(b["key"], what, dict(kind="adapter", script={**script, "behaviours": [prefix + [behaviours[bi][upto - 1]]]},
                                          key=b["key"], observed=ev, source=sources[bi]))
     tot = ctx.extra.setdefault("rejected_lines_per_key", {})
@@ -463,16 +663,20 @@ def run(ctx, replay):
         return run_replay(ctx, replay)
     cat = catalogue(ctx)
     behaviours = []
-    for name, c in mc_configs(ctx, cat).items():
-        behaviours += run_mc(ctx, cat, name, c)
-    run_witnesses(ctx, cat)
+    from concurrent.futures import ThreadPoolExecutor
+    with ThreadPoolExecutor(max_workers=4) as ex:      # independent TLC runs, each in its own scratch directory
+        futs = [ex.submit(run_mc, ctx, cat, name, c) for name, c in mc_configs(ctx, cat).items()]
+        wit = ex.submit(run_witnesses, ctx, cat)
+        for f in futs:
+            behaviours += f.result()
+        wit.result()
     n_cover = len(behaviours)
     # seeded random behaviours over the catalogue extended with random shapes (a superset, so the
     # edge cover and the random part are executed and validated together)
     rb = random_part(ctx, cat, 40 if ctx.quick() else 1000, 30 if ctx.quick() else 60)
     tagged = [("edge-cover", b) for b in behaviours] + [("random", b) for b in rb]
     # independent chunks: each is executed by its own worker process and validated by its own TLC
-    k = 1 if ctx.quick() else 4
+    k = 3 if ctx.quick() else 8
     size = sum(len(b) for _, b in tagged) // k + 1
     chunks, cur, n = [], [], 0
     for t in tagged:
@@ -484,7 +688,6 @@ def run(ctx, replay):
     if cur:
         chunks.append(cur)
     ctx.worker()
-    from concurrent.futures import ThreadPoolExecutor
     with ThreadPoolExecutor(max_workers=len(chunks)) as ex:
         futs = [ex.submit(execute, ctx, cat, [b for _, b in ch], "c%d" % i) for i, ch in enumerate(chunks)]
         results = [f.result() for f in futs]
@@ -498,6 +701,11 @@ def run(ctx, replay):
                 break
     ctx.sample(dict(random_behaviour=rb[0][:8]))
     ctx.nontrivial = len(ctx.extra.pop("nontrivial_keys"))
+    ctx.extra.pop("_ek_memo", None)
+    ek = ctx.extra["equal_key_records"]
+    ek["cells"] = len(ek["cells"])
+    if not (ek["hr"] and ek["hh"] and ek["rr"]):
+        raise Undecided("vacuous: no record with equal keys of some class was emitted: %s" % ek)
     ctx.extra["cover_behaviours"] = n_cover
     ctx.extra["random_behaviours"] = len(rb)
     ctx.extra["trace_events"] = n_rows
@@ -507,8 +715,13 @@ def run(ctx, replay):
         "the worker runs in testing mode with LnoInterrupt so that a terminating mapping shows as a record at Fatal/Panic severity instead of killing the process",
         "in colored mode only the first line of a message is compared",
         "extra attributes in a record are not an error (the statement demands that all given ones are present)",
+        "equal keys in one group: the statement says 'all its attributes' / 'add what was given', the underlying logger documents 'each key once, the last one wins' (SetAttrs/WithAttrs doc, LoggCore!Merge); the last attribute in logical order (derivation steps in order, then the record's own) must be emitted, an earlier one with the same key may be emitted or dropped - so a record attribute is never displaced by a handler attribute, and a later WithAttrs wins over an earlier one",
+        "registered levels have values >= 12 and are treated as Error..Trace or as nothing; a behaviour that registers runs in a worker process of its own, so every replay is self-contained; RegisterLevel refusing a fresh value/title is C17's matter and makes this run Undecided",
+        "a log/slog level other than the four standard ones may be mapped to any non-terminating built-in or registered severity (the statement only fixes the namesakes and excludes terminating severities)",
     ]
-    return ctx.finish(rule="every edge of the exhaustive Adapter graph(s) (set-up x derivation history x probe: Enabled/Handle/Entry.Log/"
-                           "bridge writes) executed on the library and validated by TLC against AdapterTrace, plus seeded random behaviours; "
-                           "non-trivial = distinct (set-up and derivation history, probe) pairs where a record was emitted or Enabled was asked",
+    return ctx.finish(rule="every edge of the exhaustive Adapter graph(s) (registrations x set-up x derivation history x probe: Enabled/Handle/"
+                           "Entry.Log/bridge writes; shapes with equal keys included) executed on the library - one process per behaviour "
+                           "that registers levels - and validated by TLC against AdapterTrace, plus seeded random behaviours (colliding "
+                           "shapes, registrations at random places); non-trivial = distinct (registrations, set-up and derivation history, "
+                           "probe) pairs where a record was emitted or Enabled was asked",
                       exhaustive=True)
